@@ -8,12 +8,12 @@ Open Scope string_scope.
 (* ParseBLOB_Recursive replaced by the structural reading of the drawn element with that id *)
 Definition struct_of (W : wdiagram) (v : velem) : option UmlBlob.pv :=
   match find (fun se => String.eqb (node_id (we_node (snd se))) (ve_id v)) (wd_drawn W) with
-  | Some se => Some (top_pv (we_node (snd se)))
+  | Some se => Some (top_pv_c (we_node (snd se)))
   | None => None
   end.
 
 Definition wf_drawn (W : wdiagram) : bool :=
-  forallb (fun se => wf_node (we_node (snd se)) && nb_node (we_node (snd se)) && no_char SQ (print_node (we_node (snd se)))) (wd_drawn W).
+  forallb (fun se => wf_top (we_node (snd se)) && nbq_node (we_node (snd se)) && quote_ok (print_node (we_node (snd se)))) (wd_drawn W).
 
 Lemma find_drawn_row : forall (drawn : list (string * welem)) rest mid,
   (exists se, In se drawn /\ node_id (we_node (snd se)) = mid) ->
@@ -39,6 +39,6 @@ Proof.
   pose proof (find_some _ _ Hf) as [Hin0 Hid0]. apply String.eqb_eq in Hid0.
   unfold wf_drawn in Hwf. rewrite forallb_forall in Hwf. specialize (Hwf se0 Hin0). apply andb_true_iff in Hwf. destruct Hwf as [Hw Hq].
   apply andb_true_iff in Hw. destruct Hw as [Hw Hb].
-  unfold blob_of, velem_of, melem_of_welem. cbn [ve_blobstr me_blob]. rewrite (parse_top _ Hw Hb Hq).
+  unfold blob_of, velem_of, melem_of_welem. cbn [ve_blobstr me_blob]. rewrite (parse_top_c _ Hw Hb Hq).
   unfold struct_of. cbn [ve_id me_id]. rewrite Hid0, Hf. reflexivity.
 Qed.
